@@ -112,6 +112,11 @@ def judge_stress(mode, out):
             return "lost update inside the critical section: " + out
         if nums[2] != 0:
             return "two threads inside the critical section at once (shadow holder count > 1): " + out
+    elif mode in ("trynb", "mtrynb"):
+        if len(nums) != 3 or nums[0] != 0:
+            return "a trylock call did not return while another thread held the lock (no poller returned for 6 s, until the holder unlocked): " + out
+        if nums[1] != 0:
+            return "trylock returned TRUE while another thread held the lock: " + out
     elif mode in ("twolocks", "mtwolocks"):
         if len(nums) != 4 or nums[0] != nums[2] or nums[1] != nums[3]:
             return "lost update under one of two independent locks: " + out
